@@ -11,7 +11,10 @@ Mirrors (after the `fix:` commit recorded in props/C29.findings.json):
   apply_params loop  : obj.apply(arrays') iff      any(d.check_overlap(obj) for d in devices)
                        (`devices` = the Device instances of the same object list, in list order)
 
-Simplified: an object is (box, isDevice, kind, state); `apply` is an abstract function of the arrays and
+An object carries NO kind: the decision "wait for apply_params?" looks at boxes and at which list entries are
+Devices, nothing else — sources, detectors, the volume, static objects and the devices themselves are all treated
+alike (Device.apply, Detector.apply etc. may be no-ops, they are still called).
+Simplified: an object is (box, isDevice, state); `apply` is an abstract function of the arrays and
 the object that yields the new state (the real `apply` never moves an object; K checks the slices are
 unchanged).  Random keys are not modelled (the sources used in K have no random parts).
 
@@ -99,13 +102,33 @@ def boxesOf : List Int → Option (List Box)
   | a :: b :: c :: d :: e :: f :: rest => (boxesOf rest).map (fun l => ⟨(a, b), (c, d), (e, f)⟩ :: l)
   | _ => none
 
+/-- `(d|o) x0 x1 y0 y1 z0 z1` repeated: objects of any kind in list order, `d` marks a Device -/
+def takeTagged : List String → Option (List (Obj Char))
+  | [] => some []
+  | k :: a :: b :: c :: d :: e :: f :: rest =>
+    if k ≠ "d" ∧ k ≠ "o" then none else
+    match intsOf [a, b, c, d, e, f], takeTagged rest with
+    | some [a, b, c, d, e, f], some l => some (⟨⟨(a, b), (c, d), (e, f)⟩, k == "d", '-'⟩ :: l)
+    | _, _ => none
+  | _ => none
+
 /-- ops:
   `ov  sx0 sx1 sy0 sy1 sz0 sz1  ox0 ox1 oy0 oy1 oz0 oz1` → `<checkOverlap> <AsFound.checkOverlap>` (bits)
   `row n sx0 … sz1`   → one bit per box `o` of `boxes n` (x-major): `checkOverlap s o`
+  `decide (d|o x0 x1 y0 y1 z0 z1)×n` → per object of the list (any kind), `P` or `A`: which loop applies it
   `loops nd (6 ints)×nd  no (6 ints)×no` → per non-device object one char: which loop applies it
        `P` = only place_objects (no device overlaps), `A` = only apply_params
 -/
 def handle : List String → String
+  | "decide" :: rest =>
+    -- the decision of both loops for EVERY object of the list (volume, devices, sources, detectors, …): one char
+    -- per object, `P` = applied by place_objects step 11, `A` = applied by the apply_params loop
+    match takeTagged rest with
+    | some all =>
+      let afterPlace := placeLoop (fun (_ : Unit) _ => 'P') () all
+      let afterParams := paramsLoop (fun (_ : Unit) _ => 'A') () afterPlace
+      String.ofList (afterParams.map (·.st))
+    | none => "bad-op"
   | "ov" :: rest =>
     match intsOf rest with
     | some l =>
